@@ -52,6 +52,7 @@ def tree_streams(check, prop):
                 sts.append(S("corpus:" + f, [l.strip() for l in open(os.path.join(cdir, f)) if l.strip()] + ["end"]))
     keys = [b"k%02d" % i for i in range(9)]
     sts.append(S("null-data-values", TreeCheck.nulldata_ops(faults=(prop == "C15")) + ["end"]))
+    sts.append(S("string-level-api", TreeCheck.stringapi_ops(big) + ["end"]))
     if prop == "C15":
         # every allocating operation x failure at the 1st, 2nd, ... allocation (single and
         # "all from k on"), from a corpus of prefix states; full observation afterwards
@@ -134,3 +135,13 @@ def map_streams(check, prop):
     Props/C15Map.lean and Props/C11Map.lean, oracles and generators in checks/mapcommon.py"""
     from checks import mapcommon
     return mapcommon.hash_streams(check, prop) + mapcommon.list_streams(check, prop)
+
+
+# ------------------------------------------------------------------ static hash table
+
+@provider
+def harr_streams(check, prop):
+    """qhasharr: plan forms in lean/QlibcModel/HashArr/Fault.lean, theorems in Props/C15Harr.lean and
+    Props/C11Harr.lean, oracle and generators in checks/harrmem.py"""
+    from checks import harrmem
+    return harrmem.harr_streams(check, prop)
